@@ -30,6 +30,7 @@ func init() {
 			c.run("C05-R10", "LAUNCH: pumps and the handlers that wait on what the pumps deliver are started with go", c05Launch)
 			c.run("C05-R11", "TYPESTATE: the transfer worker signals completion last, so the handler gives the session up only when the worker is done", func(c *Ctx) { completionClosedLast(c, "TrzszFilter.", 1) })
 			c.run("C05-S3", "shared with C13-R7: the wrapper's input pump reads the user's side, its output pump the remote side", c13Sides)
+			c.run("C05-R12", "GUARDED-BY: the drag buffers shared between the input pump and its delayed workers are only touched under their mutex", guardedBy)
 			c.run("C05-S2", "shared with C19-R1: header detection and the five-CAN cancel marker", c19R1)
 			c.run("C05-S1", "shared with C06-R3: the words that mark a finished transfer in scroll-back are the words the servers print (a replayed, finished handshake stays plain output)", c06R3)
 		})
@@ -835,4 +836,38 @@ func clearsDeferred(d *ssa.Defer) bool {
 		return false
 	}
 	return isNilConst(d.Call.Args[1])
+}
+
+// guardedBy: every access of a field that the code protects with a mutex happens with that mutex held. The table is
+// what the tree does today (confirmed by reading: all accesses of each field sit between Lock and the deferred Unlock
+// of the named mutex in their function); an access moved outside the region — "the lock is only needed for the
+// append" — races with the delayed flush / the upload goroutine.
+func guardedBy(c *Ctx) {
+	for _, g := range []struct{ field, mutex, why string }{
+		{"TrzszFilter.dragInputBuffer", "dragBufferMutex", "the pending Windows-path buffer is appended to by the input pump and taken by the delayed flush"},
+		{"TrzszFilter.dragFiles", "dragMutex", "the dragged-files list is appended to by the input pump and taken by the upload goroutine"},
+	} {
+		n := 0
+		for _, f := range c.AllFns {
+			var lr *lockRegion
+			looked := false
+			eachInstr(f, func(in ssa.Instruction) {
+				fa, ok := in.(*ssa.FieldAddr)
+				if !ok {
+					return
+				}
+				if nm, _ := fieldAddrName(fa); nm != g.field {
+					return
+				}
+				if !looked {
+					lr, looked = findLock(f, g.mutex), true
+				}
+				n++
+				c.check(lr != nil && lr.held(in), "guarded-by/"+g.field+"@"+c.fnName(f), c.ipos(in), "accessed with "+g.mutex+" held", "accessed without "+g.mutex+" held: "+g.why)
+			})
+		}
+		if n < 3 {
+			c.undecided("guarded-by/"+g.field, "fewer accesses than expected")
+		}
+	}
 }
